@@ -80,6 +80,10 @@ pub struct Scenario {
     /// (still stored, not yet collected) when the actors start
     #[serde(default)]
     pub clock_jump: bool,
+    /// an actor whose single step moves the clock two hours ahead (C09: expiry is decided when
+    /// a frame is about to be delivered, not when the read was issued)
+    #[serde(default)]
+    pub clock_actor: bool,
 }
 
 const ACTIVE_DEFAULT: &[&str] = &[
@@ -99,6 +103,7 @@ const ACTIVE_DEFAULT: &[&str] = &[
     "live.send",
     "beat.tick",
     "beat.send",
+    "clk.jump",
     "consumer.recv",
 ];
 
@@ -261,6 +266,18 @@ pub fn run_one(sc: &Scenario, prefix: &[usize], props: &[&str]) -> ExecResult {
                     });
                 }
             }
+        }));
+    }
+    if sc.clock_actor {
+        let who = Who::new("clk", 1);
+        sched.spawned(who);
+        let ctl2 = ctl.clone();
+        threads.push(std::thread::spawn(move || {
+            xs::verif::set_actor(Some(who));
+            let _g = ExtGuard { ctl: ctl2.clone(), who };
+            ctl2.ext_point(who, "clk.jump", &|| true);
+            let now = std::time::SystemTime::now().duration_since(std::time::UNIX_EPOCH).unwrap().as_millis() as u64;
+            xs::verif::set_clock(Some(now + 2 * 3_600_000));
         }));
     }
     if let Some(ci) = sc.remove_ctx {
@@ -533,9 +550,27 @@ pub fn run_one(sc: &Scenario, prefix: &[usize], props: &[&str]) -> ExecResult {
                     late_beats += 1;
                 }
             }
+            // C09: a time:N frame of the pre-history is expired once the clock actor has run; the
+            // scan decides about a frame in the step that precedes its hist.send
+            if sc.clock_actor && props.contains(&"C09") {
+                if let Some(jump) = steps.iter().position(|s| s.op == "clk.jump") {
+                    let hist_steps: Vec<usize> = steps.iter().enumerate().filter(|(_, s)| s.who.kind == "hist" && reader_of(&steps, s.who, sc.readers.len()) == Some(ri) && (s.op == "hist.start" || s.op == "hist.send")).map(|(i, _)| i).collect();
+                    let sends: Vec<usize> = hist_steps.iter().cloned().filter(|i| steps[*i].op == "hist.send").collect();
+                    let hist_frames: Vec<&Frame> = log.delivered.iter().filter(|f| f.topic != "xs.pulse").take(sends.len()).collect();
+                    for (k, f) in hist_frames.iter().enumerate() {
+                        if !matches!(f.ttl, Some(TTL::Time(_))) {
+                            continue;
+                        }
+                        let decided_in = hist_steps.iter().cloned().filter(|i| *i < sends[k]).max().unwrap_or(0);
+                        if jump < decided_in {
+                            findings.push(Finding { kind: "c09.expired_delivered".into(), msg: format!("reader{}: the time-limited frame {} was delivered by the stream read although the clock had passed its expiry before the scan reached it", ri, f.id) });
+                        }
+                    }
+                }
+            }
             // the subscription is taken in the step that follows the grant of `read.lock`
             let g_sub = steps.iter().position(|s| s.who.kind == "rd" && s.who.n as usize == ri + 1 && s.op == "read.lock").map(|p| p + 1).unwrap_or(g_start);
-            check_reader(ri, rs, &log, g_start, g_sub, &app, &ctx_ids, &pre_ids, &senders, late_beats, &mut findings, props, probed || !sc.probe, sc.clock_jump);
+            check_reader(ri, rs, &log, g_start, g_sub, &app, &ctx_ids, &pre_ids, &senders, late_beats, &mut findings, props, probed || !sc.probe, sc.clock_jump, sc.clock_actor);
             outcome.push_str(&format!(
                 "r{}:[{}]{};",
                 ri,
@@ -757,6 +792,7 @@ fn check_reader(
     props: &[&str],
     final_phase: bool,
     clock_jump: bool,
+    time_optional: bool,
 ) {
     let follow = rs.follow != "off";
     let scope = rs.ctx.map(|c| ctx_ids[c]);
@@ -796,6 +832,10 @@ fn check_reader(
         let expired = clock_jump && a.writer.is_none() && matches!(a.frame.ttl, Some(TTL::Time(_)));
         if !in_scope || !after_pos || expired {
             forbidden.insert(a.frame.id);
+            continue;
+        }
+        if time_optional && a.writer.is_none() && matches!(a.frame.ttl, Some(TTL::Time(_))) {
+            // whether it is still alive depends on when the clock actor ran (judged separately)
             continue;
         }
         let existed = a.writer.is_none() || a.done < g_start; // append had returned before the read began
@@ -965,6 +1005,7 @@ fn base(name: &str) -> Scenario {
         bound: None,
         remove_ctx: None,
         clock_jump: false,
+        clock_actor: false,
     }
 }
 
@@ -1157,6 +1198,19 @@ pub fn scenarios(prop: &str, tier: &str) -> Vec<Scenario> {
                 }
                 v.push(s);
             }
+            // tail together with a last-id: tail wins, nothing stored is replayed (and nothing
+            // replayed counts towards a limit)
+            for (nm, lim) in [("tail-lastid", None), ("n1-tail-lastid", Some(1usize))] {
+                let mut s = base(nm);
+                s.pre = vec![fs("h", 0, ""), fs("h", 0, ""), fs("h", 0, "")];
+                s.writers = vec![vec![fs("a", 0, ""), fs("a", 0, "")]];
+                s.readers = vec![rd("on", true, Some(0), lim, None)];
+                s.probe = true;
+                if !thorough {
+                    s.bound = Some(1);
+                }
+                v.push(s);
+            }
             // tail + limit, context + limit, last-id + limit
             let mut s = base("n1-tail");
             s.pre = vec![fs("h", 0, "")];
@@ -1225,6 +1279,17 @@ pub fn scenarios(prop: &str, tier: &str) -> Vec<Scenario> {
             s.remove_ctx = Some(1);
             s.active.extend(["ctx.unregister", "commit.pre", "commit.post"].iter().map(|x| x.to_string()));
             v.push(s);
+        }
+        "C09" => {
+            // the clock passes the expiry of a stored time:N frame while a read is under way
+            for (nm, follow) in [("expire-during-read-off", "off"), ("expire-during-read-on", "on")] {
+                let mut s = base(nm);
+                s.pre = vec![fs("h", 0, ""), fs("h", 0, "time:3600000"), fs("h", 0, "")];
+                s.writers = vec![vec![fs("a", 0, "")]];
+                s.readers = vec![rd(follow, false, None, None, None)];
+                s.clock_actor = true;
+                v.push(s);
+            }
         }
         "C05" => {
             // an import of a stored frame racing its removal (and an appender of the same topic)
@@ -1310,6 +1375,7 @@ fn owned_props(prop: &str) -> Vec<&'static str> {
         "C06" => vec!["C06"],
         "C07" => vec!["C07"],
         "C05" => vec!["C05"],
+        "C09" => vec!["C09"],
         _ => vec![],
     }
 }
